@@ -6,6 +6,7 @@ package vc
 import (
 	"fmt"
 	"go/ast"
+	goparser "go/parser"
 	"go/token"
 	"go/types"
 	"os"
@@ -206,20 +207,95 @@ func (e *Engine) inRepo(fn *ssa.Function) bool {
 	return pkg != nil && e.ModPath != "" && strings.HasPrefix(pkg.Pkg.Path(), e.ModPath)
 }
 
-// ResolveType evaluates a Go type expression in the scope of a package ("" = universe).
+// ResolveType evaluates a Go type expression in the scope of a package ("" = universe);
+// qualified names are resolved through the package's imports (by package name).
 func (e *Engine) ResolveType(pkgPath, expr string) (types.Type, error) {
-	var pkg *types.Package
-	if p, ok := e.PkgByPath[pkgPath]; ok {
-		pkg = p.Types
-	}
-	tv, err := types.Eval(e.Fset, pkg, token.NoPos, expr)
+	x, err := goparser.ParseExpr(expr)
 	if err != nil {
-		return nil, fmt.Errorf("cannot resolve type %q in %q: %v", expr, pkgPath, err)
+		return nil, fmt.Errorf("cannot parse type %q: %v", expr, err)
 	}
-	if !tv.IsType() {
-		return nil, fmt.Errorf("%q is not a type", expr)
+	var pkg *packages.Package
+	if p, ok := e.PkgByPath[pkgPath]; ok {
+		pkg = p
 	}
-	return tv.Type, nil
+	var conv func(x ast.Expr) (types.Type, error)
+	conv = func(x ast.Expr) (types.Type, error) {
+		switch n := x.(type) {
+		case *ast.Ident:
+			if pkg != nil {
+				if o := pkg.Types.Scope().Lookup(n.Name); o != nil {
+					if tn, ok := o.(*types.TypeName); ok {
+						return tn.Type(), nil
+					}
+				}
+			}
+			if o := types.Universe.Lookup(n.Name); o != nil {
+				if tn, ok := o.(*types.TypeName); ok {
+					return tn.Type(), nil
+				}
+			}
+			return nil, fmt.Errorf("unknown type %s", n.Name)
+		case *ast.SelectorExpr:
+			id, ok := n.X.(*ast.Ident)
+			if !ok {
+				return nil, fmt.Errorf("bad qualified type")
+			}
+			var cands []*packages.Package
+			if pkg != nil {
+				for _, ip := range pkg.Imports {
+					cands = append(cands, ip)
+				}
+			} else {
+				for _, ip := range e.PkgByPath {
+					cands = append(cands, ip)
+				}
+			}
+			for _, ip := range cands {
+				if ip.Name == id.Name && ip.Types != nil {
+					if o := ip.Types.Scope().Lookup(n.Sel.Name); o != nil {
+						if tn, ok := o.(*types.TypeName); ok {
+							return tn.Type(), nil
+						}
+					}
+				}
+			}
+			return nil, fmt.Errorf("unknown type %s.%s", id.Name, n.Sel.Name)
+		case *ast.ArrayType:
+			el, err := conv(n.Elt)
+			if err != nil {
+				return nil, err
+			}
+			if n.Len == nil {
+				return types.NewSlice(el), nil
+			}
+			if bl, ok := n.Len.(*ast.BasicLit); ok {
+				var k int64
+				fmt.Sscan(bl.Value, &k)
+				return types.NewArray(el, k), nil
+			}
+			return nil, fmt.Errorf("array length must be a literal")
+		case *ast.StarExpr:
+			el, err := conv(n.X)
+			if err != nil {
+				return nil, err
+			}
+			return types.NewPointer(el), nil
+		case *ast.MapType:
+			k, err := conv(n.Key)
+			if err != nil {
+				return nil, err
+			}
+			v, err := conv(n.Value)
+			if err != nil {
+				return nil, err
+			}
+			return types.NewMap(k, v), nil
+		case *ast.ParenExpr:
+			return conv(n.X)
+		}
+		return nil, fmt.Errorf("unsupported type expression %q", expr)
+	}
+	return conv(x)
 }
 
 // ContractedFunctions lists contracts with the functions they bind to (sorted), plus binding errors.
